@@ -28,13 +28,15 @@
 (***************************************************************************)
 EXTENDS Integers, Sequences, FiniteSets, TLC
 
-Keys == {"PatientID", "PatientName", "StudyInstanceUID", "StudyDate", "SeriesInstanceUID", "Modality", "SOPInstanceUID"}
+\* (SeriesNumber is an IS key: single value matching of a key that is literally the stored value must select it, whatever
+\*  its form - leading zeros included; matching of numerically equal but differently written values is not judged)
+Keys == {"PatientID", "PatientName", "StudyInstanceUID", "StudyDate", "SeriesInstanceUID", "Modality", "SeriesNumber", "SOPInstanceUID"}
 Unique == [PATIENT |-> "PatientID", STUDY |-> "StudyInstanceUID", SERIES |-> "SeriesInstanceUID", IMAGE |-> "SOPInstanceUID"]
 \* level of every key in each information model (Study Root: the patient attributes belong to the study level)
 LevelOf(model, k) ==
   CASE k \in {"PatientID", "PatientName"} -> IF model = "patient_root" THEN "PATIENT" ELSE "STUDY"
     [] k \in {"StudyInstanceUID", "StudyDate"} -> "STUDY"
-    [] k \in {"SeriesInstanceUID", "Modality"} -> "SERIES"
+    [] k \in {"SeriesInstanceUID", "Modality", "SeriesNumber"} -> "SERIES"
     [] OTHER -> "IMAGE"
 Levels(model) == IF model = "patient_root" THEN <<"PATIENT", "STUDY", "SERIES", "IMAGE">> ELSE <<"STUDY", "SERIES", "IMAGE">>
 Rank(model, l) == CHOOSE i \in 1..Len(Levels(model)) : Levels(model)[i] = l
